@@ -320,6 +320,25 @@ impl Check for C08 {
                 }
             }
         });
+        // arcs of sweep zero inside a polygon: the arc contributes its (start = end) point as a vertex
+        run.bound("zero-sweep arcs", "M a; arc(c, r, start, 0); L b over 4 x 4 end points x 8 start angles x 2 radii, also as the first op and followed by a real arc; fill and clip".to_string());
+        run.par(8 * 2, |s, l| {
+            let pi = std::f32::consts::PI;
+            let st = (s / 2) as f32 * pi / 4. + 0.2;
+            let r = [4.0f32, 7.5][s % 2];
+            for a in [(0.4f32, 0.4f32), (9.6, 0.4), (0.4, 9.6), (6.1, 11.2)] {
+                for b in [(11.3f32, 6.1f32), (2.7, 0.4), (0.4, 6.1), (9.6, 9.6)] {
+                    for clip in [false, true] {
+                        let path = PathSpec { evenodd: false, ops: vec![POp::M(a.0, a.1), POp::A(6.0, 6.0, r, st, 0.0), POp::L(b.0, b.1)] };
+                        account(run, 29_000 + s, l, &Case { w: 12, path, xf: IDENT, clip, pre: false }, false);
+                        let path = PathSpec { evenodd: false, ops: vec![POp::A(6.0, 6.0, r, st, 0.0), POp::L(a.0, a.1), POp::L(b.0, b.1)] };
+                        account(run, 29_000 + s, l, &Case { w: 12, path, xf: [1., 0., 0.25, 1., 0., 0.], clip, pre: false }, false);
+                        let path = PathSpec { evenodd: false, ops: vec![POp::M(a.0, a.1), POp::A(6.0, 6.0, r, st, -0.0), POp::A(6.0, 6.0, r * 0.5, st + 1.0, 2.5), POp::L(b.0, b.1)] };
+                        account(run, 29_000 + s, l, &Case { w: 12, path, xf: IDENT, clip, pre: false }, false);
+                    }
+                }
+            }
+        });
         // arcs
         let pi = std::f32::consts::PI;
         let sweeps: Vec<f32> = vec![pi / 3., -pi / 3., pi, -pi, 1.5 * pi, -1.5 * pi, 2. * pi, -2. * pi, 7., -7.];
